@@ -109,6 +109,67 @@ def goIndexWith (fb : Bytes → Bytes → Int) (s sub : Bytes) : Int :=
 /-- `strings.Index` = `bytes.Index` on the portable path: fall-back `IndexRabinKarp` -/
 def goIndex (s sub : Bytes) : Int := goIndexWith indexRabinKarp s sub
 
+/-! ### `stringslite.Index` as compiled for amd64 (what this platform runs)
+
+On amd64 `bytealg.MaxLen` is 63 (AVX2) or 31, `bytealg.MaxBruteForce` is 64 and `bytealg.Cutover(n)` is
+`(n + 16) / 8`.  For needles of `2 ≤ n ≤ MaxLen` bytes – practically every dissect literal – the
+`switch` takes the arm `case n <= bytealg.MaxLen`: a hay of at most 64 bytes goes straight to the
+assembly routine `bytealg.IndexString`, a longer one through an `IndexByte`-skip loop that hands the
+rest to `IndexString` once `fails > Cutover(i)` (WITHOUT testing `i < t` first: the routine may be
+given a rest that is one byte shorter than the needle).  The assembly routine is the parameter `asm`
+(an oracle with the documented contract "index of the first instance, -1 if not present, requires
+`2 <= len(b) <= MaxLen`"); everything around it is mirrored. -/
+
+/-- `bytealg.Cutover(n)` of index_amd64.go -/
+def cutoverAmd64 (n : Nat) : Nat := (n + 16) / 8
+
+/-- `bytealg.MaxBruteForce` of index_amd64.go -/
+def maxBruteForce : Nat := 64
+
+/-- the `for i < t { … }` loop of the arm `case n <= bytealg.MaxLen` -/
+def goIndexLoopAsm (asm : Bytes → Bytes → Int) (s sub : Bytes) (c0 c1 : UInt8) (t : Nat) : Nat → Nat → Nat → Int
+  | 0, _, _ => -2
+  | fuel + 1, i, fails =>
+    if ¬ i < t then -1
+    else
+      match s[i]? with
+      | none => -3
+      | some si =>
+        let i' : Option Nat :=
+          if si ≠ c0 then
+            let o := goIndexByte ((s.take t).drop (i + 1)) c0
+            if o < 0 then none else some (i + (o.toNat + 1))
+          else some i
+        match i' with
+        | none => -1
+        | some i =>
+          match s[i + 1]? with
+          | none => -3
+          | some s1 =>
+            if s1 = c1 ∧ windowEq s i sub = true then (i : Int)
+            else
+              let fails := fails + 1
+              let i := i + 1
+              -- if fails > bytealg.Cutover(i) { r := bytealg.IndexString(s[i:], substr); … }
+              if fails > cutoverAmd64 i then
+                let r := asm (s.drop i) sub
+                if r ≥ 0 then r + (i : Int) else -1
+              else goIndexLoopAsm asm s sub c0 c1 t fuel i fails
+
+/-- `stringslite.Index(s, substr)` on amd64: `maxLen` = `bytealg.MaxLen`, `asm` = `bytealg.IndexString` -/
+def goIndexAmd64 (maxLen : Nat) (asm : Bytes → Bytes → Int) (s sub : Bytes) : Int :=
+  match sub with
+  | [] => 0                                   -- case n == 0
+  | [c] => goIndexByte s c                    -- case n == 1
+  | c0 :: c1 :: rest =>
+    let n := rest.length + 2
+    if n = s.length then (if (c0 :: c1 :: rest) = s then 0 else -1)   -- case n == len(s)
+    else if n > s.length then -1                                    -- case n > len(s)
+    else if n ≤ maxLen then                                         -- case n <= bytealg.MaxLen
+      if s.length ≤ maxBruteForce then asm s (c0 :: c1 :: rest)
+      else goIndexLoopAsm asm s (c0 :: c1 :: rest) c0 c1 (s.length - n + 1) (s.length + 1) 0 0
+    else goIndexLoop indexRabinKarp s (c0 :: c1 :: rest) c0 c1 (s.length - n + 1) (s.length + 1) 0 0
+
 /-- `lowerASCII(s)`: `b := []byte(s); for i := range b { b[i] = lowerByte(b[i]) }` -/
 def lowerASCIILoop : Bytes → Nat → Nat → Bytes
   | b, _, 0 => b
